@@ -1,5 +1,5 @@
 //@PROBE file=src/track/voting/topn.rs test=verif_probe_voting_topn_c17 clauses=voting_topn
-//@BOUND 4000 pseudo-random result streams over <=3 queries x <=4 tracks x 0..=4 distances per pair (dyadic distances k/8 so that every weight is exact in any summation order, absent distances mixed in), N in 0..=3, min_votes in 0..=3, max_distance in {0.25, 0.5, 1.0}; each stream also in 3 shuffled orders and reversed
+//@BOUND 4000 pseudo-random result streams over <=3 queries x <=4 tracks x 0..=4 distances per pair (dyadic distances k/8 - in every fourth stream plus j/2^20, j in 0..=3, so that competing weights differ by less than 1e-6 - so that every weight is exact in any summation order, absent distances mixed in), N in 0..=3, min_votes in 0..=3, max_distance in {0.25, 0.5, 1.0}; each stream also in 3 shuffled orders and reversed
 #[cfg(test)]
 mod verif_probe_voting_topn_c17 {
     // Bounded stand-in for the contract of TopNVoting::winners (iterator pipeline with a &mut-capturing filter closure,
@@ -58,7 +58,8 @@ mod verif_probe_voting_topn_c17 {
             let mut stream: S = vec![];
             for q in 0..nq { for t in 0..nt {
                 let k = next() % 5;
-                for _ in 0..k { let r = next() % 10; stream.push((100 + q, 1 + t, if r == 9 { None } else { Some(r as f32 / 8.0) })); }
+                // every fourth stream: distances a few 2^-20 apart (still exact in f32 and in any summation order), so that competing weights differ by less than 1e-6
+                for _ in 0..k { let r = next() % 10; let fine = if it % 4 == 3 { (next() % 4) as f32 / 1048576.0 } else { 0.0 }; stream.push((100 + q, 1 + t, if r == 9 { None } else { Some(r as f32 / 8.0 + fine) })); }
             } }
             let n = (next() % 4) as usize; let mv = (next() % 4) as usize; let md = [0.25f32, 0.5, 1.0][(next() % 3) as usize];
             let mut orders: Vec<S> = vec![stream.clone(), stream.iter().rev().cloned().collect()];
